@@ -2249,3 +2249,38 @@ package otto
 //@   at_call builtinDateBeforeSet : arg1 == 3 && arg2 == false
 //@   at_call (*ecmaTime).goTime : arg0 == ecmaTime && arg0.year == value[0] && (len(value) > 1 ==> arg0.month == value[1]) && (len(value) > 2 ==> arg0.day == value[2])
 //@   calls (*ecmaTime).goTime(_) whenret !nanValue(result)
+
+// String.prototype.search (15.5.4.12): the whole string is searched from its start whatever
+// the lastIndex and global properties of the regular expression say, and lastIndex is
+// left unchanged - neither the exec protocol nor any [[Put]] is involved.
+//@ func builtinStringSearch
+//@   props C10 C09
+//@   nosafety
+//@   requires wfCall(call) && argsOK(call.ArgumentList) && call.runtime != nil
+//@   stable call.ArgumentList
+//@   nocall execRegExp(_, _)
+//@   nocall (*object).put(_, _, _, _)
+//@   calls (Value).string(_) as text
+//@   at_call regexp.(*regexp.Regexp).FindStringIndex : arg1 == text
+
+// Replacement patterns (15.5.4.11, table 22): $$ is "$", $& the matched substring, $` the
+// portion of the subject BEFORE the match (from its start), $' the portion after the match.
+//@ func builtinStringFindAndReplaceString$1
+//@   props C10
+//@   nosafety
+//@   ensures len(part) > 1 && part[1] == '$' ==> len(result) == 1 && result[0] == '$'
+//@   ensures len(part) > 1 && part[1] == '&' ==> len(result) == (*match)[1] - (*match)[0]
+//@   ensures len(part) > 1 && part[1] == '`' ==> len(result) == (*match)[0]
+//@   ensures len(part) > 1 && part[1] == '\'' ==> len(result) == len(*target) - (*match)[1]
+
+// JSON.parse reviver (15.12.2, Walk): a property whose revived value is undefined is deleted,
+// never defined - for array elements as for object members.
+//@ func builtinJSONReviveWalk
+//@   props C11
+//@   nosafety
+//@   abstract_callee (*object).get
+//@   at_call (*object).defineProperty : arg2.kind != valueUndefined
+//@ func builtinJSONReviveWalk$1
+//@   props C11
+//@   nosafety
+//@   at_call (*object).defineProperty : arg2.kind != valueUndefined
